@@ -18,7 +18,8 @@ def run(ctx):
                 "socket fragmentation incl. peer close; invariants OnlyComplete/DoneExact/NoCrash and liveness Terminates "
                 "under weak fairness. A: edge cover of the dumped graph replayed with an item budget (a hang is a verdict). "
                 "B: random truncated / garbage sources traced and validated by Trace_Framer; also through "
-                "XtcePacketDefinition.packet_generator. distinct = distinct (kind, read size, prefix, stream, chunks).")
+                "XtcePacketDefinition.packet_generator. Real file objects of every flavour (read-only, small buffer, read/write with pending "
+                "or partly flushed writes, temporary, BufferedReader, gzip / bz2 / lzma) are compared with the validated in-memory runs. distinct = distinct (kind, read size, prefix, stream, chunks).")
     ctx.assumptions = ["a socket recv() returning b'' means the peer closed (end of stream)",
                        "TLC 1.8 and CommunityModules Json/IOUtils are correct"]
     consts = {"TrimAt": 5, "DefaultSock": 4, "AsIs": "FALSE", "Eager": "FALSE", "DataLens": tla_set([1, 2, 3]),
@@ -73,6 +74,25 @@ def run(ctx):
         cut = cutpoints[len(runs) % len(cutpoints)]
         runs.append(fc.record(big[:cut], kind, rsize, 0, rng, 400, f"dies-beyond-20MB-{kind}"))
     fc.validate_traces(ctx, "C10", runs, "faults")
+    # ---- real file objects of every flavour: same framing as the in-memory file of the validated runs
+    cases = []
+    for i in range(6 if q else 40):
+        skip = rng.choice([0, 0, 3])
+        lens = [rng.choice([1, 2, 7, 255, 1024, 1017]) for _ in range(rng.randint(1, 12))]
+        data = _mk_stream(rng, packets, lens, skip)
+        bounds = [0]
+        for ln in lens:
+            bounds.append(bounds[-1] + skip + 6 + ln)
+        cut = rng.choice(bounds[1:])                       # a writer that flushed after a whole packet
+        if i % 3 == 1:
+            data = data[:rng.randrange(1, len(data))]      # producer died mid-stream
+            cut = min(cut, len(data))
+        elif i % 3 == 2:
+            cut = rng.randrange(len(data))                 # flushed mid-packet
+        cases.append((data, rng.choice([0, 0, 7, 4096]), skip, cut))
+    cases.append((_mk_stream(rng, packets, [1018] * 32, 0), 4096, 0, 24 * 1024))      # 1 KiB packets, flushed at a block and packet boundary
+    cases.append((b"", 0, 0, 0))
+    fc.os_sources_section(ctx, "C10", cases)
     hangs = sum(1 for r in runs if r[5]["outcome"] != "stop")
     ctx.extra["runs_not_terminating_or_raising"] = hangs
     ctx.sample({"direction": "code->spec", "label": runs[3][5]["label"], "kind": runs[3][1], "rsize": runs[3][2],
